@@ -7,6 +7,7 @@ ids=${@:-$(ls seeded)}
 for seed in $ids; do
   id=${seed%[a-z]}          # seeded/C01b is a second seeded change for property C01
   [ -f contracts/$id.py ] || { echo "$seed: no check"; continue; }
+  if grep -q '"neutralised_by"' seeded/$seed/meta.json 2>/dev/null; then echo "$seed: neutralised by a later repair of the repository (not swept)"; continue; fi
   rm -rf $SCR; mkdir -p $SCR
   (cd /repo && git archive HEAD) | tar -x -C $SCR
   if ! (cd $SCR && git apply --unsafe-paths --directory=$SCR /verif/seeded/$seed/patch.diff 2>/dev/null || patch -s -p1 -d $SCR < seeded/$seed/patch.diff); then echo "$seed: patch does not apply"; continue; fi
